@@ -545,7 +545,27 @@ func (c *Ctx) memberRuleFn(g *ssa.Function) (setsOK bool, shapeOK bool) {
 		ok, _ := c.isMembershipFn(h)
 		return ok
 	}})
-	return true, ok1 && ok2 && n1 > 0 && n2 > 0
+	// presence means "the member is there", for every member set alike: each lookup in the key object is a comma-ok
+	// lookup of which only the ok is used (a value test such as m[k] != nil reads a null-valued member as absent, so
+	// an object carrying both one-of members, one of them null, counts as carrying one)
+	ok3, n3 := true, 0
+	forEachInstr(g, func(in ssa.Instruction) {
+		lk, isL := in.(*ssa.Lookup)
+		if !isL || c.Path(lk.X, nil) != "$0" {
+			return
+		}
+		n3++
+		if !lk.CommaOk {
+			ok3 = false
+		} else if v := extractOf2(lk, 0); v != nil && v.Referrers() != nil {
+			for _, r := range *v.Referrers() {
+				if _, dbg := r.(*ssa.DebugRef); !dbg {
+					ok3 = false
+				}
+			}
+		}
+	})
+	return true, ok1 && ok2 && ok3 && n1 > 0 && n2 > 0 && n3 >= 2
 }
 
 // serviceRules: per-service obligations for elements satisfying S.
@@ -659,5 +679,25 @@ func (c *Ctx) jwkValidateRules(rule, key string, f *ssa.Function, member func(st
 	}
 	for _, m := range []string{"Crv", "X"} {
 		c.CheckGuard(rule, key+":"+strings.ToLower(m)+"-required-unless-rsa", f, nil, anyOf("RSA, or "+m+" present", notRSA, cmpReject(m+` == "" rejected`, token.EQL, member(m), pathIs(`""`))))
+	}
+	// and the other way round: a member is demanded only of the key type it belongs to — the emptiness test of crv / x is
+	// reached only by keys that are not RSA, that of n / e only by RSA keys (a well-formed RSA key has no crv)
+	emptyTest := func(m string) func(in ssa.Instruction) bool {
+		return func(in ssa.Instruction) bool {
+			bo, ok := in.(*ssa.BinOp)
+			if !ok || (bo.Op != token.EQL && bo.Op != token.NEQ) {
+				return false
+			}
+			l, r := c.Path(bo.X, nil), c.Path(bo.Y, nil)
+			return (member(m)(l) && r == `""`) || (member(m)(r) && l == `""`)
+		}
+	}
+	for _, m := range []string{"Crv", "X"} {
+		ok, w, _ := c.Guard(f, nil, isRSA, emptyTest(m))
+		c.Check(rule, key+":"+strings.ToLower(m)+"-demanded-of-non-rsa-only", ok, f.Pos(), m+` is tested only on the paths where kty != "RSA"`, w...)
+	}
+	for _, m := range []string{"N", "E"} {
+		ok, w, _ := c.Guard(f, nil, notRSA, emptyTest(m))
+		c.Check(rule, key+":"+strings.ToLower(m)+"-demanded-of-rsa-only", ok, f.Pos(), m+` is tested only on the paths where kty == "RSA"`, w...)
 	}
 }
